@@ -11,7 +11,7 @@ use ntex_mqtt::v3::{self, client, codec};
 use ntex_mqtt::{Control, MqttServiceConfig, Reason};
 use ntex_util::time::Seconds;
 
-use super::v5::{BoxFut, Receipt, SendErr, SendKind, SendRes, SendSpec, StreamFn, send_err};
+use super::v5::{read_whole, BoxFut, Receipt, SendErr, SendKind, SendRes, SendSpec, StreamFn, send_err};
 use super::*;
 use crate::conv;
 use crate::spec::v3 as s3;
@@ -189,11 +189,15 @@ async fn publish_handler(app: Rc<App>, p: v3::Publish, route: u8) -> Result<(), 
     match plan.read {
         ReadPlan::Eager => read_payload(&app, seq, || p.read(), None).await,
         ReadPlan::ReadK(k) => read_payload(&app, seq, || p.read(), Some(k)).await,
+        ReadPlan::EagerAll => read_whole(&app, seq, p.read_all().await),
         _ => {}
     }
     app.wait(G_PUB, seq).await;
     if plan.read == ReadPlan::Lazy {
         read_payload(&app, seq, || p.read(), None).await;
+    }
+    if plan.read == ReadPlan::LazyAll {
+        read_whole(&app, seq, p.read_all().await);
     }
     guard.done = true;
     app.push(Ev::PubExit { seq, outcome: plan.outcome });
@@ -659,11 +663,15 @@ async fn client_protocol_handler(app: Rc<App>, msg: client::ProtocolMessage) -> 
             match plan.read {
                 ReadPlan::Eager => read_payload(&app, seq, || p.read(), None).await,
                 ReadPlan::ReadK(k) => read_payload(&app, seq, || p.read(), Some(k)).await,
+                ReadPlan::EagerAll => read_whole(&app, seq, p.read_all().await),
                 _ => {}
             }
             app.wait(G_PUB, seq).await;
             if plan.read == ReadPlan::Lazy {
                 read_payload(&app, seq, || p.read(), None).await;
+            }
+            if plan.read == ReadPlan::LazyAll {
+                read_whole(&app, seq, p.read_all().await);
             }
             guard.done = true;
             app.push(Ev::PubExit { seq, outcome: plan.outcome });
